@@ -68,4 +68,71 @@ WTUpTo(n) == UNION {WT[i] : i \in 1..n}
 
 WorldsOf(m) == WorldsOfCtx(m, Ctx)
 
+(***************************************************************************)
+(* Families beyond the exhaustive node bound (shared by the generators)    *)
+(***************************************************************************)
+CONSTANTS CompStride,  \* 0: no composites; else the pools are thinned to every CompStride-th element
+          CompKeep,    \* of the typed composites keep every CompKeep-th
+          CompSeed     \* offset of the kept residue classes (from VERIF_SEED)
+
+
+(***************************************************************************)
+(* Larger miniscripts than the exhaustive node bound reaches: every binary *)
+(* combinator over the (<= 3 node) x (<= 2 node) pools in both orders,     *)
+(* andor over the <= 2 node pool, thresh over three <= 2 node children;    *)
+(* type-checked by SpecType, then thinned deterministically by stride.     *)
+(***************************************************************************)
+\* the pools are thinned BEFORE combination (cost is quadratic / cubic in pool size):
+\* every CompStride-th element, residue class chosen by the seed
+Thin(S, stride, off) == LET Q == SetToSeq(S) IN {Q[q] : q \in {r \in 1..Len(Q) : r % stride = off % stride}}
+P3 == IF CompStride = 0 THEN {} ELSE Thin(WTUpTo(IF MaxNodes < 3 THEN MaxNodes ELSE 3), CompStride, CompSeed)
+P2 == IF CompStride = 0 THEN {} ELSE Thin(WTUpTo(2), (CompStride + 1) \div 2, CompSeed)
+P2all == IF CompStride = 0 THEN {} ELSE WTUpTo(2)
+CompTyped ==
+  IF CompStride = 0 THEN {}
+  ELSE OkOnly({T(Bin(f, x.a, y.a), SpecBinType(f, x.t, y.t, Ctx)) : f \in BinFrags, x \in P3, y \in P2})
+       \cup OkOnly({T(Bin(f, x.a, y.a), SpecBinType(f, x.t, y.t, Ctx)) : f \in BinFrags, x \in P2, y \in P3})
+       \cup UNION {OkOnly({T(Tern("andor", x.a, y.a, z.a), SpecAndOrType(x.t, y.t, z.t, Ctx)) : y \in P2, z \in P2})
+                   : x \in {q \in P2all : q.t.b = "B" /\ Has(q.t, {"d", "u"})}}
+       \cup UNION {OkOnly({T(Thresh(k, <<x.a, y.a, z.a>>), SpecThreshType(k, <<x.t, y.t, z.t>>)) :
+                             k \in 1..3, y \in {q \in P2all : q.t.b = "W" /\ Has(q.t, {"d", "u"})},
+                             z \in {q \in P2 : q.t.b = "W" /\ Has(q.t, {"d", "u"})}})
+                   : x \in {q \in P2 : q.t.b = "B" /\ Has(q.t, {"d", "u"})}}
+CompB == {x \in CompTyped : x.t.b = "B" /\ NodeCount(x.a) > MaxNodes /\ KeyCanonical(x.a)}
+CompKept == IF CompStride = 0 THEN {} ELSE {x.a : x \in Thin(CompB, CompKeep, CompSeed)}
+\* a second level: composites under or_d / or_b / and_b / or_i with a small sibling (dissatisfied
+\* and satisfied positions of the composite both occur)
+Sib == {q \in P2 : KeyCanonical(q.a)}
+Comp2Kept == IF CompStride = 0 THEN {}
+             ELSE LET lvl1 == Thin(CompB, CompKeep * 8, CompSeed + 1)
+                      lvl2 == {z \in OkOnly({T(Bin(f, x.a, s.a), SpecBinType(f, x.t, s.t, Ctx)) : f \in {"or_d", "or_b", "and_b", "or_i"}, x \in lvl1, s \in Sib})
+                                 : z.t.b = "B" /\ KeyCanonical(z.a)}
+                  IN {y.a : y \in Thin(lvl2, 6, CompSeed)}
+
+
+(***************************************************************************)
+(* "Signed prefix" family: and_v(v:pk(K1), X) for every B fragment X of up *)
+(* to 3 nodes (keys of X shifted by one).  It turns fragments with a       *)
+(* signature-less branch into sane scripts, which is where the             *)
+(* non-malleable satisfier has to make its interesting choices.            *)
+(***************************************************************************)
+RECURSIVE ShiftKeys(_)
+ShiftKeys(m) ==
+  IF m.f \in {"pk_k", "pk_h"} THEN [m EXCEPT !.n = m.n + 1]
+  ELSE IF m.f \in {"multi", "multi_a"} THEN [m EXCEPT !.ks = [q \in 1..Len(m.ks) |-> m.ks[q] + 1]]
+  ELSE [m EXCEPT !.xs = [q \in 1..Len(m.xs) |-> ShiftKeys(m.xs[q])]]
+PrefixedKept ==
+  IF CompStride = 0 THEN {}
+  ELSE {y.a : y \in OkOnly({T(Bin("and_v", Un("v", Un("c", Leaf("pk_k", 1))), ShiftKeys(x.a)),
+                                 TypeOf(Bin("and_v", Un("v", Un("c", Leaf("pk_k", 1))), ShiftKeys(x.a)), Ctx))
+                               : x \in {q \in WTUpTo(IF MaxNodes < 3 THEN MaxNodes ELSE 3) : q.t.b = "B" /\ KeyCanonical(q.a) /\ "s" \notin q.t.fl}})}
+
+(***************************************************************************)
+(* Wrapper closure: every single wrapper over the fragments of exactly     *)
+(* MaxNodes nodes, thinned by WrapStride (0 = none).                       *)
+(***************************************************************************)
+WrappedTyped(stride, off) ==
+  IF stride = 0 THEN {}
+  ELSE OkOnly({T(Un(w, x.a), SpecUnType(w, x.t, Ctx)) : w \in Wrappers, x \in Thin(WT[MaxNodes], stride, off)})
+
 =============================================================================
